@@ -26,19 +26,24 @@ PROPS["C11"] = {
              "ResolveRelativeFinalSource, judged by a segment-stack model; all (base, rel1, rel2) triples over the accepted "
              "relatives (<=4 segments quick, <=5 thorough) for composition; all FinalSourceAddr sub-path pairs of depth<=3; "
              "all absolute second arguments. rapid adds longer paths and odd names. Non-trivial = the relative path contains "
-             "at least one '..' (or, for finaladdr, both sides carry a sub-path; abs: every case); distinct = hash of the case."),
+             "at least one '..' (or, for finaladdr, both sides carry a sub-path; abs: every case); distinct = hash of the case. "
+             "builderjoin: rapid draws a registry package whose single version resolves to a real address with sub-path r and 1-4 "
+             "(final) registry requests with sub-paths s in one build; the finder's own call log must show the module at r joined with s "
+             "analysed for every request, cached answers included (non-trivial = requests with different sub-paths)."),
     "assumptions": ["the reference is a segment stack written from the property text", "bases are rendered from abstract (kind, segments) values and parsed by go-slug's own parsers"],
     "quick": [
         plain("exh-pairs", "^TestExhaustivePairs$", shards=2),
         plain("exh-triples", "^TestExhaustiveTriples$", shards=4),
         plain("exh-final", "^TestExhaustiveFinalAddr$"),
         rapid("rapid", "^TestProp", 20000, shards=3),
+        rapid("builder", "^TestBuilderJoin$", 400),
     ],
     "thorough": [
         plain("exh-pairs", "^TestExhaustivePairs$", shards=2),
         plain("exh-triples", "^TestExhaustiveTriples$", shards=8),
         plain("exh-final", "^TestExhaustiveFinalAddr$"),
         rapid("rapid", "^TestProp", 200000, shards=5),
+        rapid("builder", "^TestBuilderJoin$", 4000, shards=2),
     ],
 }
 
@@ -116,7 +121,7 @@ PROPS["C12"] = {
              "error) at EVERY byte offset of the clean output (<=4KiB; every Write-call boundary +-1 and midpoint beyond) must return a "
              "non-nil, non-IllegalSlug error; (b) for a generated well-formed archive, Unpack from a reader that is truncated or returns an "
              "error at EVERY byte offset (also with 1-, 7- and 512-byte reads) must return a non-policy error, or - if nil - the destination "
-             "equals the tree of the complete archive; policy rejections (escaping names and links) must be *IllegalSlugError; (c) bundle "
+             "equals the tree of the complete archive; policy rejections (escaping names and links, entry kinds a slug may not contain, entries placed through a link of the archive, links leaving by way of another link) must be *IllegalSlugError; (c) bundle "
              "builds: see DESIGN. Non-trivial = a fault that lands after progress was made (offset>0 for writers, >20 bytes for readers) / a "
              "policy rejection; distinct = (subject hash, offset, kind)."),
     "assumptions": ["a crash is modelled as an observation at a callback boundary, not a kill between two syscalls"],
@@ -167,7 +172,7 @@ PROPS["C20"] = {
     "pkg": "c20",
     "level": "exploration",
     "rule": ("Same tree/option generator as C05 (half of the cases without out-of-tree links): empty trees, only directories, links of every "
-             "kind, dereferenced files and directories (also nested), ignored subtrees, empty and 64KiB files. Oracle: Meta.Files equals the "
+             "kind, dereferenced files and directories (also nested, also an external directory whose walk fails after two files), ignored subtrees, empty and 64KiB files. Oracle: Meta.Files equals the "
              "decoded entry names in order; Meta.Size equals the sum of header sizes of regular entries and the sum of body bytes read back; "
              "non-regular entries carry no body. Non-trivial = a dereferenced link, ignore processing on, an empty file, an empty tree or "
              "links; distinct by case hash."),
@@ -181,7 +186,7 @@ PROPS["C16"] = {
     "level": "exploration",
     "replay_race": True,
     "rule": ("Metamorphic. Baseline = decoded entries (names, order, type, mode, mtime, link target, body) of Pack(clean absolute path) from "
-             "cwd '/'. (1) spelling: 21 variants per generated tree - relative spellings from the parent, from inside the tree and from an "
+             "cwd '/'. (1) spelling: 25 variants per generated tree (among them a source below a symlinked parent directory and a two-link chain across directories) - relative spellings from the parent, from inside the tree and from an "
              "unrelated cwd, trailing slash, '.'/'..' segments, doubled slashes, and the directory reached through a symlink with absolute "
              "target, with a target relative to the link's directory (from several cwds), a chain of two links, link + trailing slash. (2) "
              "history: 0-5 earlier operations on the same Packer value (Packs of other trees incl. rule files starting with a negation, many "
@@ -285,7 +290,7 @@ PROPS["C14"] = {
              "Oracle over the call logs: each closure package fetched exactly once and no other, each registry version list and each selected "
              "version's source address requested exactly once, the multiset of analysed (source, finder) pairs equals the reference closure, "
              "every trace start is followed by exactly one matching success/failure with the real call in between, 'already' only after an "
-             "earlier success; termination is decided by a call budget (10x the reference bound), not a clock. With one injected fetch/registry/finder fault the trace must stay bracketed and an 'already' event must still refer to completed work. Non-trivial = cycle/diamond, "
+             "earlier success; termination is decided by a call budget (10x the reference bound), not a clock. With one injected fetch/registry/finder fault (or a registry answering a version query successfully with an empty list) the trace must stay bracketed and an 'already' event must still refer to completed work. Non-trivial = cycle/diamond, "
              "duplicate Add or multi-artifact closure; distinct by case hash."),
     "assumptions": ["only fault-free worlds for which the reference predicts no error are judged (C12 takes the rest)"],
     "quick": [plain("exh2", "^TestExhaustiveGraphs$", shards=1, env={"VERIF_C14_LOCS": 2}), rapid("once", "^TestPropOnce$", 800, shards=4), rapid("faultedtrace", "^TestPropFaultedTrace$", 800, shards=2)],
@@ -297,7 +302,7 @@ PROPS["C17"] = {
     "level": "exploration",
     "rule": ("rapid draws 1-2 registry packages offering 1-8 distinct versions from a pool with gaps, pre-releases (alpha/beta/rc), two-digit "
              "components and build-metadata twins, in any listing order, each with its own real source and optional deprecation note, and 1-4 "
-             "requests in one build against them (allowed sets: all, released, exact, ranges, pessimistic, exclusions, disjoint/empty ones; "
+             "requests in one build against them - Add calls, or 1-4 registry dependencies reported at once by the root module of a fetched package, often the same source under different constraints - (allowed sets: all, released, exact, ranges, pessimistic, exclusions, disjoint/empty ones; "
              "AddFinalRegistrySource with offered and unoffered versions; sub-paths) to exercise cache reuse. Oracle: brute-force maximum "
              "(own semver precedence) over offered-and-allowed versions: each request's newest allowed version is in the bundle with exactly "
              "the registry's source address and deprecation note for that version and resolves to the same path as that address; the bundle "
@@ -331,7 +336,7 @@ PROPS["C09"] = {
     "level": "exploration",
     "rule": (WORLD_RULE + "Packages additionally carry generated extra files: docs, executables, read-only and world-writable files, empty and 0777 "
              "directories, in-package links to files (and, rarely, to directories), commit metadata incl. message without id. For every world "
-             "that builds: b1 = Close(), b2 = OpenDir(target), b3 = ExtractArchive(WriteArchive(b1)) into a fresh directory must agree on "
+             "that builds (the target directory in a quarter of the cases named through a symlinked parent directory): b1 = Close(), b2 = OpenDir(target), b3 = ExtractArchive(WriteArchive(b1)) into a fresh directory must agree on "
              "RemotePackages and metadata, RegistryPackages, versions, source addresses, deprecation notes, ChecksumV1, every lookup (forward "
              "for known, unknown and sub-path addresses, registry and final-registry forms, reverse on sampled paths) made relative to each "
              "root, and b1's and b3's directory trees must have the same paths, types, contents, permission bits and link targets. "
@@ -349,7 +354,7 @@ PROPS["C10"] = {
              "parent), to the future manifest, out of the bundle (relative and absolute, to files, directories and a fifo), chains (in and "
              "out), dangling links, self loops, links whose target a rule deletes (sorting before and after the target), links that a rule "
              "deletes, links to directories matched by directory rules, fifos and sockets (also below ignored directories); rule files from "
-             "15 lines incl. negations. Oracle: the arena outside the target is unchanged; if the build succeeds every entry of every "
+             "15 lines incl. negations. Oracle: the arena outside the target - which holds the process's working directory and TMPDIR during the build - is unchanged; if the build succeeds every entry of every "
              "package directory is a regular file, a directory, or a link that physically resolves to an existing regular file/directory "
              "inside that package directory, no file the reference ignore matcher excludes remains, no .tmp-* directory is left; a hazard "
              "that is definitely illegal (special file, out-of-bundle/climbing/dangling link) and not ignored, in a reachable package, must "
@@ -370,7 +375,7 @@ PROPS["C18"] = {
              "strictly inside the root; (2) on those and on real bundles built from worlds with aliases: for every package directory and "
              "existing / non-existing / non-ASCII tails, spelled absolute, relative to the cwd and with '.'/'..' segments, "
              "SourceForLocalPath succeeds and LocalPathForSource of its result is Clean(Abs(path)); the root, the manifest file, unknown "
-             "directories, siblings sharing the root's name prefix and paths above the root are refused. Thorough: native fuzzing of manifest "
+             "directories, siblings sharing the root's name prefix, a package directory's name in another letter case and paths above the root are refused. Thorough: native fuzzing of manifest "
              "bytes. Non-trivial = hostile 'local' or a real bundle; distinct by case hash."),
     "assumptions": ["file names are valid UTF-8 (an address is text)"],
     "quick": [rapid("manifest", "^TestPropManifest$", 6000, shards=4), rapid("inverse", "^TestPropInverse$", 500, shards=4)],
